@@ -57,9 +57,9 @@ Print Assumptions C16_old_descriptor_lookup_refuted.
 
 (* non-vacuity: two applications on two models, two workers, one failing request, an interleaved schedule *)
 Example C16_witness :
-  let reqs := nth_req [{| r_app := 0; r_payload := 7; r_badenc := false; r_missing := false |};
-                       {| r_app := 1; r_payload := 5; r_badenc := false; r_missing := true |};
-                       {| r_app := 0; r_payload := 2; r_badenc := false; r_missing := false |}] in
+  let reqs := nth_req [{| r_app := 0; r_payload := 7; r_badenc := false; r_missing := false; r_badaccept := false |};
+                       {| r_app := 1; r_payload := 5; r_badenc := false; r_missing := true; r_badaccept := false |};
+                       {| r_app := 0; r_payload := 2; r_badenc := false; r_missing := false; r_badaccept := false |}] in
   let inst_of := assoc [(0, 1); (1, 2)] in
   let F := fun i v => (Z.of_nat i * 10 * v)%Z in
   let st := run reqs inst_of F 2 init
